@@ -77,3 +77,40 @@ Example C14_nonvacuous :
   interpolation_axes_are_last ["state_index"; "h"; "w"] ["w"] = true /\
   interpolation_axes_are_last ["w"; "h"] ["w"] = false.
 Proof. vm_compute. repeat split. Qed.
+
+(* ---- refinement: the function representation computes the specification's read of V_{t+1} ------- *)
+From LCM Require Import Spec.Lang Spec.Bellman Proofs.C14_Refine.
+(* For the states of the next period in declaration order (sts), a finite table F indexed in that      *)
+(* order, and next-state values vals with valid discrete labels: if the array vf holds the table in the  *)
+(* documented layout (Hlayout: C05's contract, after indexing with the state index and the discrete       *)
+(* labels the remaining axes are the continuous states), then the function representation evaluated at    *)
+(* the continuous axes of sts/vals is the value q that the specification's vread returns.                 *)
+Theorem C14_function_representation_refines_the_specifications_read :
+  forall (sts : list (string * grid)) (F : list nat -> Q) (vals : list Q) (q : Q) (dl : list nat)
+         (vf : arr Q) (indexer : option (arr Z)) (rlabels dlabels : list Z),
+  grids_valid sts -> length vals = length sts ->
+  qread sts F vals = Some q -> disc_labels sts vals = Some dl ->
+  conts_of sts vals <> [] ->
+  cont_shape vf indexer rlabels dlabels = cont_sizes sts ->
+  (forall cidx, in_bounds (cont_sizes sts) cidx ->
+     get 0 vf (positions vf indexer rlabels dlabels ++ cidx) == F (merge sts dl cidx)) ->
+  vread sts (fun idx => VFin (F idx)) vals = VFin q /\
+  function_representation vf indexer rlabels dlabels (conts_of sts vals) == q.
+Proof. exact function_representation_is_vread. Qed.
+Print Assumptions C14_function_representation_refines_the_specifications_read.
+
+Theorem C14_function_representation_refines_the_specifications_read_discrete :
+  forall (sts : list (string * grid)) (F : list nat -> Q) (vals : list Q) (q : Q) (dl : list nat)
+         (vf : arr Q) (indexer : option (arr Z)) (rlabels dlabels : list Z),
+  qread sts F vals = Some q -> disc_labels sts vals = Some dl -> cont_sizes sts = [] ->
+  cont_shape vf indexer rlabels dlabels = [] ->
+  get 0 vf (positions vf indexer rlabels dlabels) == F (merge sts dl []) ->
+  function_representation vf indexer rlabels dlabels (conts_of sts vals) == q.
+Proof. exact function_representation_discrete_only. Qed.
+Print Assumptions C14_function_representation_refines_the_specifications_read_discrete.
+
+(* the specification's read on a finite table IS qread *)
+Theorem C14_specification_read_on_finite_tables : forall sts F vals,
+  vread sts (fun idx => VFin (F idx)) vals = match qread sts F vals with Some q => VFin q | None => VUndef end.
+Proof. exact vread_finite. Qed.
+Print Assumptions C14_specification_read_on_finite_tables.
